@@ -121,6 +121,7 @@ func genTypes(t *rapid.T, p *Project, pf Profile) *typeCtx {
 			}
 			d.Consts = append(d.Consts, c)
 		}
+		d.MultiNameConsts = rapid.IntRange(0, 3).Draw(t, "multiNameConsts") == 0
 		p.Types = append(p.Types, d)
 		ctx.enums = append(ctx.enums, Named(pkg, d.Name))
 	}
